@@ -120,6 +120,20 @@ def check_C15(tier, seed):
                 n2 = 6 if tier == "quick" else 40
                 ws.append(Workload(s, libcheck.with_via([x for x in picked[:n2]], r), libcheck.NAMES4 + ["d"], mode="disk", tag="m",
                                    flags={"conn2": True}, origin=st["instance"] + " + probes, two connections"))
+        # re-parenting with "crates from elsewhere in the tree" as arguments: every transition of the Library graph over 4 crates
+        # built by create_root / create_sub and moved by set_parent (6 calls), in the sanitizer build - a structure damaged by one
+        # move is the input of the next (seeded change C15f: a hierarchy row missing after the first move lets the second one
+        # build a cycle, and the path rewrite recurses until the stack is gone)
+        mcache = {}
+        for s in schemas:
+            fam = vlib.family(s)
+            if fam not in mcache:
+                mcache[fam] = vlib.mc_forest(wd, fam, 4, 6, crate_ops="move", opnames=("a",) if fam == "v1" else ("a", "b", "c", "d"), timeout=1500)
+                mc_stats.append(mcache[fam][0])
+            st, sc = mcache[fam]
+            r = random.Random(seed * 283 + vlib.ALL.index(s))
+            nm = (450 if fam == "v1" else 250) if tier == "quick" else 6000
+            ws.append(Workload(s, sc if len(sc) <= nm else r.sample(sc, nm), libcheck.NAMES4 + ["d"], tag="mv", origin=st["instance"]))
         return ws
 
     def build_track(wd, mc_stats):
